@@ -178,6 +178,8 @@ FEATURE_GRAMMARS = [
     ('left-right-joins', "start: 'b'<{'a'}+ $ | 'a'>{'b'}+ 'a' $ ;\n"),
     ('left-right-joins-named', "start: x:'b' n:('b'<{'a'}+) $ | x:'a' n:('a'>{'b'}+) $ ;\n"),
     ('verbose-pattern-multiline', "start: /(?x)\n  a\n  b/ 'a' $ | /(?x) b  # c\n/ $ ;\n"),
+    # skip groups match but add nothing to the result (and keep names bound inside them to themselves)
+    ('skip-group', "start: 'a' (?: 'b' 'a') 'b' $ | (?: 'a') x:'a' (?: y:'b') $ | (?: 'b' | 'a' 'b') {(?: 'b')} 'a' $ ;\n"),
     ('names-in-nested-choice', "start: ('a' x:'a' | 'b' [x:'b'] y:'a') [z:'b' | z+:'a'] ;\n"),
 ]
 
@@ -196,7 +198,7 @@ def feature_inputs(name, tier):
         'long-closures': ['a' * 20 + ' ', 'b' * 20 + ' ', 'd' * 20 + ' ', 'g' * 20 + ' ', 'i' * 20], 'long-named': ['a' * 20 + ' ', 'c' * 20 + ' ', 'd' * 20, 'a'],
     }.get(name, ['a', 'b', ' '])
     n = 4 if tier == 'quick' else 5
-    if name in ('include', 'pynames', 'meta-all', 'lookaheads', 'unicode', 'token-rule-names', 'cut-in-group-optional', 'left-right-joins', 'left-right-joins-named') or name.startswith('long-'):
+    if name in ('include', 'pynames', 'meta-all', 'lookaheads', 'unicode', 'token-rule-names', 'cut-in-group-optional', 'left-right-joins', 'left-right-joins-named', 'skip-group') or name.startswith('long-'):
         n = 5       # their longest alternative needs that many lexemes
     if name == 'long-choice':
         n = 2
